@@ -167,7 +167,7 @@ def main(argv):
             ctx.fail("proof", f"{prop.lower()}.generated_obligation", gen_info,
                      {"name": ",".join(gen_targets), "lake_output": gen_out[-3000:]})
         if src_info:
-            s_ok, s_out, bt3 = cm.lean_build([src_info["lean_target"]])
+            s_ok, s_out, bt3 = cm.lean_build([src_info["lean_target"]] + list(src_info.get("extra_targets", [])))
             bt += bt3
             if src_info["unavailable"]:
                 # some listed function is outside the translatable subset (or moved): that part of the source tie is not
@@ -206,6 +206,11 @@ def main(argv):
                 w3, t3, raw3, rc3 = cm.lean_audit(prop, suffix="Src")
                 wanted, raw, rc = wanted + w3, raw + raw3, rc or rc3
                 thms.update(t3)
+                for suf in src_info.get("extra_audits", []):
+                    if (cm.LEAN_DIR / "Audit" / f"{prop}{suf}.lean").exists():
+                        w5, t5, raw5, rc5 = cm.lean_audit(prop, suffix=suf)
+                        wanted, raw, rc = wanted + w5, raw + raw5, rc or rc5
+                        thms.update(t5)
                 if src_info.get("alignment") == "holds" and (cm.LEAN_DIR / "Audit" / f"{prop}SrcModel.lean").exists():
                     w4, t4, raw4, rc4 = cm.lean_audit(prop, suffix="SrcModel")
                     wanted, raw, rc = wanted + w4, raw + raw4, rc or rc4
@@ -213,6 +218,10 @@ def main(argv):
             else:
                 src_wanted = __import__("re").findall(r"^#print axioms\s+(\S+)", (cm.LEAN_DIR / "Audit" / f"{prop}Src.lean").read_text(),
                                                        flags=__import__("re").M)
+                for suf in src_info.get("extra_audits", []):
+                    fa = cm.LEAN_DIR / "Audit" / f"{prop}{suf}.lean"
+                    if fa.exists():
+                        src_wanted += __import__("re").findall(r"^#print axioms\s+(\S+)", fa.read_text(), flags=__import__("re").M)
         bad_axioms = {t: a for t, a in thms.items() if not set(a) <= cm.STD_AXIOMS}
         missing = [t for t in wanted if t not in thms]
         hits = cm.forbidden_hits()
